@@ -104,25 +104,80 @@ Section Sort.
 End Sort.
 
 (* ---- the yaql comparator --------------------------------------------------- *)
-Definition pc (p q : Z * Z) : Z :=
-  if (fst p <? fst q)%Z || ((fst p =? fst q)%Z && (snd p <? snd q)%Z) then (-1)%Z
-  else if (fst q <? fst p)%Z || ((fst p =? fst q)%Z && (snd q <? snd p)%Z) then 1%Z else 0%Z.
+(* keys are compared as (rank, payload) pairs, payloads (integers, code points) lexicographically *)
+Lemma lcmp_refl a : lcmp a a = Eq.
+Proof. induction a as [|x r IH]; cbn; [reflexivity|]. rewrite Z.compare_refl. exact IH. Qed.
+
+Lemma lcmp_eq a : forall b, lcmp a b = Eq -> a = b.
+Proof.
+  induction a as [|x r IH]; intros [|y r'] H; cbn in H; try discriminate; [reflexivity|].
+  destruct (Z.compare_spec x y) as [E|E|E]; try discriminate. subst. f_equal. apply IH. exact H.
+Qed.
+
+Lemma lcmp_antisym a : forall b, lcmp b a = CompOpp (lcmp a b).
+Proof.
+  induction a as [|x r IH]; intros [|y r']; cbn; try reflexivity.
+  rewrite (Z.compare_antisym x y). destruct (Z.compare x y); cbn; [apply IH | reflexivity | reflexivity].
+Qed.
+
+Lemma lcmp_trans a : forall b c, lcmp a b = Lt -> lcmp b c = Lt -> lcmp a c = Lt.
+Proof.
+  induction a as [|x r IH]; intros [|y r'] [|z r''] H1 H2; cbn in *; try discriminate; try reflexivity.
+  destruct (Z.compare_spec x y) as [E1|E1|E1]; try discriminate;
+    destruct (Z.compare_spec y z) as [E2|E2|E2]; try discriminate; subst.
+  - rewrite Z.compare_refl. apply (IH _ _ H1 H2).
+  - apply Z.compare_lt_iff in E2. rewrite E2. reflexivity.
+  - apply Z.compare_lt_iff in E1. rewrite E1. reflexivity.
+  - assert (E3 : (x < z)%Z) by lia. apply Z.compare_lt_iff in E3. rewrite E3. reflexivity.
+Qed.
+
+Definition pcmp (p q : Z * list Z) : comparison :=
+  match Z.compare (fst p) (fst q) with Eq => lcmp (snd p) (snd q) | c => c end.
+
+Lemma pcmp_refl p : pcmp p p = Eq.
+Proof. unfold pcmp. rewrite Z.compare_refl. apply lcmp_refl. Qed.
+
+Lemma pcmp_eq p q : pcmp p q = Eq -> p = q.
+Proof.
+  unfold pcmp. destruct p as [a x], q as [b y]. cbn. destruct (Z.compare_spec a b) as [E|E|E]; try discriminate.
+  intro H. subst. f_equal. apply lcmp_eq. exact H.
+Qed.
+
+Lemma pcmp_antisym p q : pcmp q p = CompOpp (pcmp p q).
+Proof.
+  unfold pcmp. rewrite (Z.compare_antisym (fst p) (fst q)). destruct (Z.compare (fst p) (fst q)); cbn; [apply lcmp_antisym | reflexivity | reflexivity].
+Qed.
+
+Lemma pcmp_trans p q r : pcmp p q = Lt -> pcmp q r = Lt -> pcmp p r = Lt.
+Proof.
+  unfold pcmp. destruct p as [a x], q as [b y], r as [c z]. cbn.
+  destruct (Z.compare_spec a b) as [E1|E1|E1]; try discriminate;
+    destruct (Z.compare_spec b c) as [E2|E2|E2]; try discriminate; subst; intros H1 H2.
+  - rewrite Z.compare_refl. apply (lcmp_trans _ _ _ H1 H2).
+  - apply Z.compare_lt_iff in E2. rewrite E2. reflexivity.
+  - apply Z.compare_lt_iff in E1. rewrite E1. reflexivity.
+  - assert (E3 : (a < c)%Z) by lia. apply Z.compare_lt_iff in E3. rewrite E3. reflexivity.
+Qed.
+
+Definition pc (p q : Z * list Z) : Z := match pcmp p q with Lt => (-1)%Z | Eq => 0%Z | Gt => 1%Z end.
 
 Lemma kcmp_pc a b :
   val_ltb a b = (pc (key_rank a) (key_rank b) =? -1)%Z /\ val_gtb a b = (pc (key_rank a) (key_rank b) =? 1)%Z.
 Proof.
-  unfold val_ltb, val_gtb, kcmp, pc. destruct (key_rank a) as [ra za], (key_rank b) as [rb zb]. cbn [fst snd].
-  destruct (Z.compare_spec ra rb), (Z.compare_spec za zb);
-    destruct ((ra <? rb)%Z || ((ra =? rb)%Z && (za <? zb)%Z)) eqn:E1;
-    destruct ((rb <? ra)%Z || ((ra =? rb)%Z && (zb <? za)%Z)) eqn:E2; split; try reflexivity; lia.
+  unfold val_ltb, val_gtb, kcmp, pc, pcmp. destruct (key_rank a) as [ra za], (key_rank b) as [rb zb]. cbn [fst snd].
+  destruct (Z.compare ra rb); [destruct (lcmp za zb)| |]; split; reflexivity.
 Qed.
 
 Lemma pc_facts p q r :
   pc q p = (- pc p q)%Z /\ (-1 <= pc p q <= 1)%Z /\
   ((pc p q <= 0 -> pc q r <= 0 -> pc p r <= 0 /\ (pc p q < 0 \/ pc q r < 0 -> pc p r < 0))%Z).
 Proof.
-  unfold pc. destruct p as [p1 p2], q as [q1 q2], r as [r1 r2]. cbn [fst snd].
-  repeat match goal with |- context [if ?b then _ else _] => destruct b eqn:? end; lia.
+  unfold pc. rewrite (pcmp_antisym p q). split; [destruct (pcmp p q); reflexivity|]. split; [destruct (pcmp p q); lia|].
+  destruct (pcmp p q) eqn:A, (pcmp q r) eqn:B; intros H1 H2; try lia.
+  - apply pcmp_eq in A. apply pcmp_eq in B. subst. rewrite pcmp_refl. lia.
+  - apply pcmp_eq in A. subst. rewrite B. lia.
+  - apply pcmp_eq in B. subst. rewrite A. lia.
+  - rewrite (pcmp_trans _ _ _ A B). lia.
 Qed.
 
 Definition key1 (k : okey) (a b : val) : Z :=
@@ -133,7 +188,7 @@ Lemma compare_keys_step k r a b :
 Proof.
   destruct k as [f asc]. cbn [compare_keys]. unfold key1. cbn [fst snd].
   destruct (kcmp_pc (apply f a) (apply f b)) as [L G]. rewrite L, G.
-  pose proof (pc_facts (key_rank (apply f a)) (key_rank (apply f b)) (0, 0)%Z) as (_ & R & _).
+  pose proof (pc_facts (key_rank (apply f a)) (key_rank (apply f b)) (0%Z, [])) as (_ & R & _).
   destruct asc;
     destruct (pc (key_rank (apply f a)) (key_rank (apply f b)) =? -1)%Z eqn:E1;
     destruct (pc (key_rank (apply f a)) (key_rank (apply f b)) =? 1)%Z eqn:E2;
